@@ -4,6 +4,7 @@ import Drv.C15
 import Drv.C16
 import Drv.C17
 import Drv.C20
+import Drv.Core
 open DrvUtil
 
 def main (args : List String) : IO UInt32 := do
@@ -16,6 +17,9 @@ def main (args : List String) : IO UInt32 := do
   | ["c20exp5"] => mapLines i o drvC20exp5; return 0
   | ["c20path4"] => foldLines i o none drvC20path4; return 0
   | ["c20stream4"] => foldLines i o none drvC20stream4; return 0
+  | ["controller"] => foldLines i o none drvController; return 0
+  | ["refresher"] => foldLines i o none drvRefresher; return 0
+  | ["bankmachine"] => foldLines i o none drvBankMachine; return 0
   | ["c20pipe"] => foldLines i o none drvC20pipe; return 0
   | ["c20a5"] => mapLines i o drvC20a5; return 0
   | ["c17mr"] => mapLines i o drvC17mr; return 0
